@@ -117,6 +117,12 @@ def run_case(case, workdir):
     info = {}
     basis = basis_for(case, mf, rng) if ints is None else (np.eye(case["nsite"]) if case.get("basis_mode") == "identity" else None)
     kind = case["kind"]
+    if ints is None:
+        # a preparation is a function of its arguments only: an earlier preparation of the same molecule (as in a script
+        # that prepares several trials one after the other) must not influence this one
+        with M.quiet():
+            pyscf_interface.prep_afqmc(mf, chol_cut=cut)
+        info["preceded_by_another_preparation"] = True
     if kind in ("mf", "lattice"):
         with M.quiet():
             pyscf_interface.prep_afqmc(mf, basis_coeff=basis, norb_frozen=nf, chol_cut=cut, integrals=ints)
@@ -359,7 +365,7 @@ def run(ctx):
     ctx.cov["distinct_nontrivial"] = len(dist)
     ctx.cov["rule"] = ("random geometries of H2/H3/H4 chain/H4 ring/LiH/OH (sto-3g, sto-6g, 6-31g), RHF/ROHF/UHF (UHF after following instabilities), frozen core 0/1, "
                        "density fitting, custom basis_coeff (rotated MOs, Lowdin AOs), chol_cut in {1e-5,1e-6,1e-8}, random MO re-phasing before CCSD/UCCSD, "
-                       "Hubbard rings through the custom-integrals path (basis = MOs and basis = identity), injected dyadic amplitudes")
+                       "Hubbard rings through the custom-integrals path (basis = MOs and basis = identity), injected dyadic amplitudes; every molecular case is preceded by another preparation of the same molecule in the same process")
     ctx.cov["samples"] = [json.dumps(c)[:300] for c in cases[:3]]
     ctx.cov["distribution"] = dist
     ctx.cov["skipped"] = skipped
